@@ -149,6 +149,17 @@ def run_unit(name, outdir, tier, canaries=True):
         return rec
     rlimit = 30 if tier == "quick" else 60
     res = U.attribute(built, U.run_verus(built["path"], rlimit=rlimit, seed=SEED if tier == "thorough" and SEED else None))
+    if built.get("hint_lines"):
+        # equivalence hints (rtok.add_eqv_hints) are speculative proof obligations of the tooling: unless every one of them
+        # is discharged and the run has no tool error, the unit is re-woven without them and decided on that run alone
+        hl = set(built["hint_lines"])
+        if [d for d in res["diagnostics"] if d["class"] != "obligation" or d.get("line") in hl]:
+            built = U.build(name, REPO, outdir, hints=False)
+            rec["built"] = {k: built[k] for k in ("path", "functions", "rewrites", "assumptions", "unlisted_hatches")}
+            res = U.attribute(built, U.run_verus(built["path"], rlimit=rlimit, seed=SEED if tier == "thorough" and SEED else None))
+            rec["eqv_hints"] = "tried and dropped"
+        else:
+            rec["eqv_hints"] = built.get("eqv_hints")
     rec["verus"] = {k: res[k] for k in ("cmd", "rc", "wall_s", "verified", "errors", "functions", "diagnostics", "smt_ms")}
     # per extracted function: text + obligations
     lines = built["text"].split("\n")
@@ -159,6 +170,9 @@ def run_unit(name, outdir, tier, canaries=True):
             fn["n_obligations"] = sum(fn["obligations"].values())
     failed = [d for d in res["diagnostics"] if d["class"] == "obligation"]
     other = [d for d in res["diagnostics"] if d["class"] != "obligation"]
+    for d in failed:
+        fnr = [fn for fn in built["functions"] if d.get("line") and fn["lines"][0] <= d["line"] <= fn["lines"][1]]
+        d["proof_step"] = bool(fnr) and is_proof_step(d, lines, fnr[0]["lines"][0])
     if other:
         rec["status"] = "undecided"
         rec["reason"] = "; ".join("%s: %s (fn %s)" % (d["class"], d["message"][:160], d.get("function")) for d in other[:3])
@@ -201,6 +215,46 @@ def run_unit(name, outdir, tier, canaries=True):
             rec["reason"] = "canary verified (contradictory preconditions or assumed spec?) in: %s" % vac
     rec["wall_s"] = time.time() - t0
     return rec
+
+
+def in_proof_block(lines, fn_start, line):
+    """is (1-based) `line` of the woven text inside a `proof { .. }` block opened at or after line fn_start?"""
+    stack = []
+    prev_word = ""
+    for ln in range(fn_start, line + 1):
+        t = lines[ln - 1]
+        t = re.sub(r'"(?:[^"\\]|\\.)*"', '""', t)
+        t = t.split("//")[0]
+        if ln == line:
+            # state at the first non-blank character of the line (a line that itself opens `proof {` counts)
+            if re.match(r"\s*proof\s*\{", t):
+                return True
+            return "proof" in stack
+        for m in re.finditer(r"[A-Za-z_][A-Za-z_0-9]*|[{}]", t):
+            tok = m.group(0)
+            if tok == "{":
+                stack.append("proof" if prev_word == "proof" else "other")
+                prev_word = ""
+            elif tok == "}":
+                if stack:
+                    stack.pop()
+                prev_word = ""
+            else:
+                prev_word = tok
+    return False
+
+
+def is_proof_step(d, lines, fn_start):
+    """A failed ghost `assert` or a failed precondition of a lemma called inside a `proof` block is a step of the proof
+    text that no longer goes through - not a clause of the function's contract (ensures, requires of a callee of the
+    real code, loop invariant, overflow / bounds / panic obligation)."""
+    msg = d.get("message", "")
+    if msg.startswith("assertion failed") or msg.startswith("assert"):
+        return True   # executable `assert!` is woven as a call (`__assert`): its failure reads "precondition not satisfied"
+    if msg.startswith("precondition not satisfied") and d.get("line"):
+        return in_proof_block(lines, fn_start, d["line"])
+    return False
+
 
 
 def obligation_name(unit, d):
@@ -367,11 +421,28 @@ def finish(pid, tier, spec, units, results, engines, known, t0):
         import replay
         os.makedirs(os.path.join(ROOT, "replay", "out"), exist_ok=True)
         rp = replay.find_and_write(pid, viol, REPO, tier, SEED)
+        kept = []
         for (name, u, d), path_found in zip(viol, rp):
             path, found = path_found
+            if not found and isinstance(d, dict) and d.get("proof_step") and d.get("changed"):
+                # A step of the PROOF TEXT (ghost assert / lemma call) fails on a function whose text changed, every clause
+                # of its contract that the verifier reached is intact, and the replay bank has no failing input: the proof
+                # is undecided on the new text (an equivalent rewriting can break a proof step), not a violation.
+                undecided.append("%s: proof step no longer goes through on the changed text and the replay bank has no failing input (%s)" % (u, name[:200]))
+                try:
+                    os.remove(path)
+                except OSError:
+                    pass
+                continue
+            kept.append((name, u, d))
             replay_paths.append(path)
             print("OBLIGATION-FAILED: %s" % name)
             print("VIOLATION property=%s replay=%s%s" % (pid, path, "" if found else " no-failing-input-found"))
+        viol = kept
+        if not viol:
+            rc = 2
+            for x in undecided:
+                print("UNDECIDED property=%s %s" % (pid, x))
     elif undecided:
         rc = 2
         for x in undecided:
